@@ -96,6 +96,20 @@ theorem reply_wellformed_flat_partial (c : Ctx) (cmd : List Bytes) (p : Prog Res
     (s : State) (r : Res) (h : (p.run c s).2 = .done r) : Res.WFok r :=
   progOf_wf2_run c cmd p hp hx s r h
 
+/-- **GETRANGE and SUBSTR cannot take the server down** (repaired in /repo by a `fix:` commit; before it a start
+    beyond the value, or a negative index reaching before its first byte, sliced out of bounds and the panic
+    ended the process — the former classes `getrange-panic` / `substr-panic`). For every argument vector, every
+    context and every state the run of the handler of both rows does not end in a panic. -/
+theorem getrange_substr_never_panic (c : Ctx) (cmd : List Bytes) (s : State) (w : String) :
+    ((handleSubStr c cmd).run c s).2 ≠ .panic w :=
+  handleSubStr_no_panic c cmd s w
+
+/-- … and the slice the handler takes is within the value for every start and end -/
+theorem getrange_slice_within_value (value : Bytes) (start end_ : Int) :
+    0 ≤ (subStrIdx value.length start end_).1 ∧ (subStrIdx value.length start end_).1 ≤ value.length ∧
+    0 ≤ (subStrIdx value.length start end_).2 ∧ (subStrIdx value.length start end_).2 ≤ value.length :=
+  subStrIdx_bounds value.length start end_ (Int.natCast_nonneg _)
+
 /-- a plain success reply that is `WFok` is accepted by the strict parser -/
 theorem wfok_parses (r : Bytes) (h : Res.WFok (.ok r)) : (parseReply r).isSome = true := WF.parses h
 
